@@ -272,7 +272,7 @@ func (r *run) checkC05(d *delivery, cl opClass, accepted bool, i int) {
 				if evPost != "RoundClosed" {
 					r.viol("C05", "betting-opened-with-fewer-than-two-stacks", fmt.Sprintf("%d seats with chips, next led to %s: %s", mv, evPost, fmtState(post)), i)
 				}
-			} else if evPost != "ReadyRequested" {
+			} else if evPost != "ReadyRequested" && evPost != "RoundStarted" {
 				r.viol("C05", "betting-round-skipped", fmt.Sprintf("%d seats with chips, next led to %s: %s", mv, evPost, fmtState(post)), i)
 			}
 		}
